@@ -11,8 +11,32 @@ KeyOfName(a, nm) == CHOOSE x \in DOMAIN a.names : a.names[x] = nm
 \* segments of a raw split ("/a/b" -> <<"", "a", "b">>), empty ones dropped
 NonEmpty(raw) == SelectSeq(raw, LAMBDA s : s # "")
 
+\* ---- the real I18nRoute (route families) ---------------------------------------------------------------
+\* Match: what RouteDefs::match_route made of a URL.  prefix: text matched by the I18nRoute itself ("/fr" or ""),
+\* params: name -> segments.  The URL must start with the base by whole segments (otherwise nothing is claimed: how a router
+\* base is compared is leptos_router's business) ...
+MatchTags(ev) ==
+    LET a == Cases[ev.case].abs
+        p == NonEmpty(ev.path_segs) IN
+    IF ev.outcome # "Ok" THEN {"match-outcome:" \o ev.outcome}
+    ELSE IF ~(Len(p) >= Len(a.base) /\ SubSeq(p, 1, Len(a.base)) = a.base)
+         THEN (IF ev.res.matched THEN {"matched-outside-base"} ELSE {})
+    ELSE LET r == SubSeq(p, Len(a.base) + 1, Len(p))
+             m == MatchUrl(r, a.names, a.order, a.default, a.table)
+             got == { <<k, ev.res.params[k]>> : k \in DOMAIN ev.res.params } IN
+         IF ev.res.matched # m.matched THEN {IF m.matched THEN "route-not-matched" ELSE "matched-without-route"}
+         ELSE IF ~m.matched THEN {}
+         ELSE (IF ev.res.prefix = (IF m.loc = None THEN "" ELSE "/" \o m.prefix) THEN {} ELSE {"locale-of-url"})
+              \cup (IF got = m.b THEN {} ELSE {"route-parameters"})
+\* Routes: the route list the I18nRoute generates
+RoutesTags(ev) ==
+    LET a == Cases[ev.case].abs IN
+    IF ev.routes = GenRoutes(a.names, a.order, a.default, a.table) THEN {} ELSE {"generated-routes"}
+
 Tags(ev) ==
     IF ev.ev = "Crash" THEN {"crash:" \o ev.outcome}
+    ELSE IF ev.ev = "Match" THEN MatchTags(ev)
+    ELSE IF ev.ev = "Routes" THEN RoutesTags(ev)
     ELSE IF ev.ev # "Url" THEN {}
     ELSE LET a == Cases[ev.case].abs IN
       IF ev.op = "read"
